@@ -267,8 +267,23 @@ def auto_stacked():
                     except SyntaxError:
                         okay = False
             if okay:
-                out.append({"id": f"auto-{d}+{m['id']}", "props": m["props"], "patch": pp, "edits": m["edits"], "rules": m.get("rules"), "expect": "violation"})
+                cid = f"auto-{d}+{m['id']}"
+                if cid in AUTO_SKIP:
+                    continue
+                out.append({"id": cid, "props": m["props"], "patch": pp, "edits": m["edits"], "rules": m.get("rules"),
+                            "expect": "silent" if cid in AUTO_NEUTRAL else "violation"})
     return out
+
+
+# mechanical combinations confirmed by reading to be something else than "the same defect on the rewritten code"
+AUTO_NEUTRAL = {
+    # app-r5 handles PONG (and returns) before the CLOSE test the mutation is inserted in front of: the inserted statement is dead code
+    "auto-refactor-app-r5+c13-two-frames-per-read": "dead code on this rewrite",
+}
+AUTO_SKIP = {
+    # core-r5 renamed the loop variable `l`: `return l` is a NameError on every path there (the suite fails) -- not a realistic change
+    "auto-refactor-core-r5+c01-return-last-write": "refers to a name the rewrite removed",
+}
 
 
 def selftest(jobs=16, only=None) -> int:
